@@ -4,7 +4,7 @@
     statement is C08_sequence in Properties/C03.v's round-trip development once
     messages are produced by the encoder; here it is stated for arbitrary accepted
     inputs.) *)
-From RL Require Import Model.Decode Spec.SpecDecode Proofs.Framing.
+From RL Require Import Model.Decode Spec.SpecDecode Spec.SpecEncode Proofs.Framing Proofs.Sequence.
 
 (** the declared length fits: control (12 <= Length <= |b|) or data carrying L *)
 Theorem C08_suffix : forall o b s, 2 <= len b ->
@@ -48,6 +48,17 @@ Theorem C08_avps_records : forall rs, forallb well_delimited rs = true ->
   s_avps (concat rs) = (map s_record rs, []).
 Proof. exact avps_concat. Qed.
 
+(** messages packed back to back decode one after another *)
+Theorem C08_back_to_back : forall v rest, framed v = true ->
+  s_decode strict_opts (s_encode v ++ rest) = Ok (canon v, rest).
+Proof. exact back_to_back. Qed.
+
+Theorem C08_sequence : forall vs, forallb framed vs = true ->
+  map (fun r => match r with Ok (m, _) => Some m | Err _ => None end)
+      (s_decode_seq (S (length vs)) strict_opts (concat (map s_encode vs)))
+  = map (fun v => Some (canon v)) vs.
+Proof. exact sequence_decodes. Qed.
+
 Example C08_example :
   s_decode strict_opts ([19;32;0;20; 0;1;0;2;0;3;0;4; 1;8;0;0;0;0;0;6] ++ [7;7;7]) =
   add_rest [7;7;7] (s_decode strict_opts [19;32;0;20; 0;1;0;2;0;3;0;4; 1;8;0;0;0;0;0;6]).
@@ -59,3 +70,5 @@ Print Assumptions C08_accepted_suffix.
 Print Assumptions C08_ctrl_consumes_declared.
 Print Assumptions C08_avps_concat.
 Print Assumptions C08_avps_records.
+Print Assumptions C08_back_to_back.
+Print Assumptions C08_sequence.
